@@ -81,7 +81,8 @@ class C18(Prop):
         "shuffle_inplace_eq_separate", "xShuffle_inplace_eq_separate", "shuffleKmers_inplace_eq_separate", "shuffleWindows_inplace_eq_separate",
         "xShuffleWindows_inplace_eq_separate", "msaShuffle_inplace_eq_separate", "qrna_inplace_eq_separate", "roll_returns_from_poked_state",
         "dchoose_returns", "iid_never_fatal", "markov1_counts_exact", "cMarkov0_einval_or_ok", "xMarkov0_einval_or_ok", "cMarkov1_einval_or_ok", "xMarkov1_einval_or_ok",
-        "dchoose_inverse_cdf", "markov0_frequencies_exact", "markov1_conditional_exact", "iid_never_fatal_any_number_type", "qrna_status")]
+        "dchoose_inverse_cdf", "markov0_frequencies_exact", "markov1_conditional_exact", "iid_never_fatal_any_number_type", "qrna_status",
+        "ieee_carrier_lawful", "ieee_L5", "iid_support_ieee", "iid_support_ieee_negzero", "iid_never_fatal_ieee")]
     claimed = True
     technique = ("Lean 4 proof (Fisher-Yates/swap-loop invariants, permutation and support theorems for every generator state) + "
                  "exact differential correspondence of the executable model (on the C09 generator model) with the ASan/UBSan-built C code + python property monitors on the C output")
@@ -110,10 +111,13 @@ class C18(Prop):
                   "rebuilt by PermuteSequenceOrder maps every (distinct) name to its new row (model of Reuse+Store, compared exactly incl. duplicated names).")
     level_note = ("Trusted: Lean kernel + propext/Classical.choice/Quot.sound; fidelity of the hand model is checked (not proved) by the differential run; esl_rnd_Roll's rejection loop and the DP "
                   "shuffle's retry loop are modelled with fuel: termination for every stream is false; proved instead: per-draw rejection set < half of the words, and an accepting roll vector exists for every pass "
-                  "(positive success probability per pass; no probability theory is formalised); the bijection theorems are statements about roll vectors, equal likelihood of roll values is C09's roll_unbiased32; Markov/IID support theorems are over four arithmetic laws (L1 a+0=a, L2 0/d=0 for d>0, L3 0/(double)n=0 for n>0, "
-                  "L4 x/2^32 is never < 0/norm; class LawfulCNum, rationals are a proved instance) that binary64 is TRUSTED to satisfy - they are IEEE-754 facts Lean cannot prove about its opaque Float; "
-                  "the instances used are listed in Shuffle/FloatLaws.lean and the op `fplaws` evaluates every one of them (in C doubles and in Lean Float) on the values the next Markov/IID call encounters "
-                  "(counts in the evidence file: fplaws_calls / fplaws_instances_checked; `bad` must be 0) - support on executed values only; the never-esl_fatal theorems are proved over the rationals and need a fifth IEEE fact for binary64 (L5 norm/norm = 1.0 for a finite positive norm, x/2^32 < 1.0 - also monitored by `fplaws`); zero-length pairwise alignments raise Easel's zero-size-allocation exception (modelled, outside the quantifier).")
+                  "(positive success probability per pass; no probability theory is formalised); the bijection theorems are statements about roll vectors, equal likelihood of roll values is C09's roll_unbiased32; Markov/IID support theorems are over the class LawfulCNum (L1 u<(a+0)/n <=> u<a/n and 0+0=0, "
+                  "L2 0/d=0 for d>0, L3 0/(double)n=0 for n>0, L4 x/2^32 is never < 0/norm): round 6 restated every law so that it holds for EVERY binary64 value (the old a+0=a fails at -0.0) and PROVED the class for two carriers - the rationals, "
+                  "and Ieee rho = NaN/+-inf/+-0/representable rationals with the exact result delivered through ANY monotone idempotent rounding rho (IEEE 754 section 6 special-value tables; IeeeCarrier.lean, ieee_carrier_lawful); L5 (norm/norm = 1.0, x/2^32 < 1.0) is the theorem ieee_L5 "
+                  "and gives iid_never_fatal_ieee (never esl_fatal in ROUNDED arithmetic whenever the computed sum is finite and non-zero); iid_support_ieee_negzero covers p[k] = -0.0. What stays TRUSTED is ONE statement: C double / Lean's opaque Float are such a carrier "
+                  "(round-to-nearest-even, 53-bit significands) - C09's FloatFacts list cannot provide L1-L5 (it has no equalities beyond exact integers and no fact about division by a non-integer), so the two lists stay separate; "
+                  "the op `fplaws` still evaluates every instance (in C doubles and in Lean Float) on the values the next Markov/IID call encounters "
+                  "(counts in the evidence file: fplaws_calls / fplaws_instances_checked; `bad` must be 0); the Markov-0/1 never-esl_fatal theorems are proved over the rationals only; zero-length pairwise alignments raise Easel's zero-size-allocation exception (modelled, outside the quantifier).")
     diverge_is_violation = False
     quick_budget_s = 90
     trusted_base = ["hand model of esl_randomseq.c / esl_msashuffle.c / esl_vectorops.c shufflers tied by exact differential run (h_randomseq.c, ASan+UBSan build of the working tree)",
